@@ -44,6 +44,18 @@
 //! twice, before a healthy server appears.  Every one of the k connections must get exactly its own payload back
 //! through the healthy connection, and the client must still be running.
 //!
+//! Family M (`M-local-client-goes-away-while-parked`): the client has ONE local entry of kind e (a TCP remote as
+//! everywhere else, or a SOCKS listener `127.0.0.1:<port>:socks`).  While the tunnel is down (first attempt `reset` /
+//! `stall`) a local client A connects, says everything at once (SOCKS: greeting `05 01 00` and CONNECT request
+//! `05 01 00 01 <target>` in one write, without waiting for the method reply; TCP remote: a few octets) so that its
+//! stream request waits in the client, and then GOES AWAY before the tunnel is back: orderly (`fin`), abortively
+//! (`rst-linger0`: SO_LINGER 0) or -- SOCKS only, a TCP remote sends nothing that could be left unread -- by closing
+//! with the method reply unread (`rst-unread-data`).  Optionally one connection fails while A's request is being
+//! served (`mute` / `close0`); then a healthy server.  A is owed nothing, but it is ONE local connection: after the
+//! healthy connection is up a NEW local client B on the SAME entry must be served (SOCKS: well-formed success reply,
+//! then its bytes echoed) and the client must still be running.  In this family every local connection the
+//! controller opens (B, a nudge) speaks the protocol of the entry.
+//!
 //! The oracle is written from the property statement: a little model of the retry
 //! rule (`model`) gives, per script, the expected number of attempts, the delay
 //! class before every attempt and the way the client must end.  Lower bounds on gaps
@@ -68,7 +80,7 @@ use tokio::net::{TcpListener, TcpSocket};
 
 #[path = "c19_net.rs"]
 mod net;
-use net::{AttemptLog, ClientEnd, LocalConn, LocalRes, Shared, free_port, open_local, serve, spawn_client};
+use net::{AttemptLog, ClientEnd, GoAway, GoerLog, LocalConn, LocalRes, Shared, free_port, open_local, run_goer, serve, spawn_client};
 
 /// tolerance on lower bounds (timer granularity of the runtime is 1 ms)
 const TOL_MS: f64 = 2.0;
@@ -228,12 +240,22 @@ struct Scenario {
     /// first remote, one on the second) are opened at once, each sending its own payload, while the first attempt of
     /// the script is failing / has just failed, i.e. while the tunnel is down (0: one TCP remote, nothing of the kind)
     several: usize,
+    /// family M: the (only) local entry is a SOCKS listener instead of a TCP remote; every local connection of the
+    /// scenario then speaks SOCKS5 (CONNECT to the target the TCP remote would forward to)
+    socks: bool,
+    /// family M: a local client connects while the first attempt of the script is failing / has just failed, says
+    /// everything at once (its stream request then waits in the client) and goes away like this before the tunnel is back
+    goes_away: Option<GoAway>,
 }
 
 impl Scenario {
     /// everything the scenarios of families A-D have in common
     fn plain() -> Self {
-        Self { kind: Kind::Script, family: "", script: Vec::new(), n: 0, cap_ms: 300, down_at: None, outage_ms: 0, ka: None, wss: false, hs_ms: HS_TIMEOUT_MS, open_end: false, abortive: false, udp_flood: 0, several: 0 }
+        Self { kind: Kind::Script, family: "", script: Vec::new(), n: 0, cap_ms: 300, down_at: None, outage_ms: 0, ka: None, wss: false, hs_ms: HS_TIMEOUT_MS, open_end: false, abortive: false, udp_flood: 0, several: 0, socks: false, goes_away: None }
+    }
+    /// family M: the kind of the local entry, for keys
+    fn entry(&self) -> &'static str {
+        if self.socks { "socks" } else { "tcp-remote" }
     }
     fn steps(&self) -> Option<Vec<Step>> {
         model_x(&self.script, self.n, self.cap_ms, self.ka.is_some(), self.open_end)
@@ -245,7 +267,7 @@ impl Scenario {
         (i, t.max(i))
     }
     fn client_cfg(&self, sport: u16, lport: u16, udp_lport: Option<u16>) -> net::ClientCfg {
-        net::ClientCfg { sport, lport, max_retry_count: self.n, max_retry_interval_ms: self.cap_ms, keepalive_ms: self.ka, wss: self.wss, handshake_timeout_ms: self.hs_ms, channel_timeout_ms: CH_TIMEOUT_MS, udp_lport, lport2: None }
+        net::ClientCfg { sport, lport, max_retry_count: self.n, max_retry_interval_ms: self.cap_ms, keepalive_ms: self.ka, wss: self.wss, handshake_timeout_ms: self.hs_ms, channel_timeout_ms: CH_TIMEOUT_MS, udp_lport, lport2: None, socks: self.socks }
     }
     fn to_json(&self) -> Value {
         json!({
@@ -264,6 +286,8 @@ impl Scenario {
             "drop_is_tcp_reset": self.abortive,
             "udp_datagrams_during_first_outage": self.udp_flood,
             "local_connections_at_once_during_first_outage_on_two_tcp_remotes": self.several,
+            "local_entry": self.entry(),
+            "local_client_goes_away_during_first_outage_while_its_request_waits": self.goes_away.map(GoAway::name),
         })
     }
     fn from_json(v: &Value) -> Result<Self, String> {
@@ -294,6 +318,16 @@ impl Scenario {
             several: match v["local_connections_at_once_during_first_outage_on_two_tcp_remotes"].as_u64().unwrap_or(0) {
                 k @ (0 | 2 | 3) => k as usize,
                 k => return Err(format!("local_connections_at_once_during_first_outage_on_two_tcp_remotes: {k} (0, 2 or 3)")),
+            },
+            // (absent in replay files written before family M: a TCP remote, nobody goes away)
+            socks: match v["local_entry"].as_str() {
+                None | Some("tcp-remote") => false,
+                Some("socks") => true,
+                Some(o) => return Err(format!("local_entry: {o} (tcp-remote or socks)")),
+            },
+            goes_away: match &v["local_client_goes_away_during_first_outage_while_its_request_waits"] {
+                Value::Null => None,
+                g => Some(g.as_str().and_then(GoAway::parse).ok_or_else(|| format!("local_client_goes_away_during_first_outage_while_its_request_waits: {g}"))?),
             },
         })
     }
@@ -327,6 +361,12 @@ impl Scenario {
         }
         if self.several > 0 {
             s += &format!(" two-tcp-remotes+{}-local-connections-at-once-during-the-first-outage", self.several);
+        }
+        if self.socks {
+            s += " local-entry=socks";
+        }
+        if let Some(g) = self.goes_away {
+            s += &format!(" local-client-goes-away-during-the-first-outage={}", g.name());
         }
         if self.wss || self.hs_ms != HS_TIMEOUT_MS {
             s += &format!(" handshake_timeout={}ms", self.hs_ms);
@@ -772,6 +812,46 @@ fn build_matrix(thorough: bool) -> (Vec<Scenario>, Bounds) {
         v.push(lf(Beh::Reset, &[Beh::Mute, Beh::Close0], 2));
         v.push(lf(Beh::Reset, &[Beh::Drop, Beh::Mute], 3));
     }
+    // M: a local client whose stream request waits in the client GOES AWAY while the tunnel is down.  One local entry of
+    // kind e (TCP remote / SOCKS listener); first attempt d (`reset` / `stall`), during which local client A connects,
+    // says everything at once and goes away in way g (`fin`, `rst-linger0`; SOCKS also `rst-unread-data`: a TCP remote
+    // sends nothing to a local client while the tunnel is down, so there is nothing it could leave unread -- not
+    // reachable, left out); optionally one connection f that fails while A's request is being served (`mute`: the
+    // request times out and is parked; `close0`); then healthy.  max_retry_count = 0.  What the pinned client does, for
+    // every point: the request of A is served by the healthy connection like any other (a stream is opened at the
+    // server); TCP remote: the forwarder task fails or sees the end of stream, which is logged; SOCKS: the success
+    // reply goes to a dead socket (`fin`: the write succeeds, the copy ends at once; `rst-*`: the write fails with
+    // ECONNRESET / EPIPE), a per-connection error that is logged.  The listener goes on accepting in both cases, so a
+    // new local client B on the same entry is served: no point of the product is lossy for B by design, none left out.
+    let mf = |socks: bool, d: Beh, g: GoAway, f: Option<Beh>| {
+        let mut script = vec![d];
+        script.extend(f);
+        script.push(Beh::Healthy);
+        Scenario { family: "M-local-client-goes-away-while-parked", script, n: 0, cap_ms: 300, socks, goes_away: Some(g), ..Scenario::plain() }
+    };
+    let ways_m = |socks: bool| -> &'static [GoAway] { if socks { &[GoAway::Fin, GoAway::RstLinger, GoAway::RstUnread] } else { &[GoAway::Fin, GoAway::RstLinger] } };
+    if thorough {
+        for socks in [false, true] {
+            for d in [Beh::Reset, Beh::Stall] {
+                for &g in ways_m(socks) {
+                    for f in [None, Some(Beh::Mute), Some(Beh::Close0)] {
+                        v.push(mf(socks, d, g, f));
+                    }
+                }
+            }
+        }
+    } else {
+        // every (e, g) at least once, both d, every f
+        v.push(mf(false, Beh::Reset, GoAway::Fin, None));
+        v.push(mf(false, Beh::Reset, GoAway::RstLinger, Some(Beh::Mute)));
+        v.push(mf(false, Beh::Stall, GoAway::RstLinger, None));
+        v.push(mf(true, Beh::Reset, GoAway::Fin, None));
+        v.push(mf(true, Beh::Reset, GoAway::RstLinger, None));
+        v.push(mf(true, Beh::Reset, GoAway::RstUnread, None));
+        v.push(mf(true, Beh::Stall, GoAway::RstLinger, Some(Beh::Mute)));
+        v.push(mf(true, Beh::Reset, GoAway::RstUnread, Some(Beh::Close0)));
+        v.push(mf(true, Beh::Stall, GoAway::RstUnread, None));
+    }
     for sc in &v {
         if sc.kind == Kind::Script {
             assert!(sc.steps().is_some(), "matrix contains an incomplete history: {}", sc.short());
@@ -850,6 +930,8 @@ struct Exec {
     /// `silent` / `tls-stall` attempt
     ka_gaps: Vec<(f64, f64)>,
     tls_gaps: Vec<(f64, f64)>,
+    /// family M: what the local client that went away did
+    goer: Option<GoerLog>,
 }
 
 #[derive(Clone, Debug)]
@@ -899,6 +981,7 @@ impl Exec {
             lost_while_answered: None,
             ka_gaps: Vec::new(),
             tls_gaps: Vec::new(),
+            goer: None,
         }
     }
     fn find(&mut self, key: impl Into<String>, desc: impl Into<String>, load_sensitive: bool) {
@@ -927,6 +1010,7 @@ impl Exec {
             "streams_at_healthy_server": self.streams.iter().map(|s| json!({"attempt": s.attempt, "target": format!("{}:{}", s.host, s.port)})).collect::<Vec<_>>(),
             "client_result": self.client_end.as_ref().map(|c| json!({"t_ms": r1(c.t_ms), "class": c.class, "text": c.text})),
             "local_connections": self.locals.iter().map(|l| json!({"opened_because": l.origin, "tcp_remote": l.remote, "request_timed_out_once": l.through_mute, "open_ms": r1(l.open_before_ms), "result": l.result.as_ref().map(|r| format!("{r:?}")), "deadline_hit": l.deadline_hit})).collect::<Vec<_>>(),
+            "local_client_that_went_away": self.goer.as_ref().map(|g| json!({"how": self.sc.goes_away.map(GoAway::name), "open_ms": r1(g.open_before_ms), "connected_ms": g.connected_ms.map(r1), "everything_sent_ms": g.sent_ms.map(r1), "socks_method_reply_arrived": g.method_reply, "gone_ms": g.gone_ms.map(r1), "trouble": g.err})),
             "silent_periods": self.quiet.iter().map(|q| json!({"after_attempt": q.after_attempt, "after": q.beh.name(), "no_attempt_for_ms": q.silent_ms, "then_local_connection_at_ms": r1(q.nudge_before_ms), "attempt_came_ms_after_it": q.attempt_after_nudge_ms.map(r1)})).collect::<Vec<_>>(),
             "stopped": self.stop,
             "findings": self.keys(),
@@ -943,11 +1027,13 @@ struct Ctl {
     /// family L: the local port of the second TCP remote, with its own "has accepted once" flag (the two
     /// listeners are bound independently of each other)
     lport2: Option<(u16, Arc<AtomicBool>)>,
+    /// family M: the first local entry is a SOCKS listener, local connections to it speak SOCKS5
+    socks: bool,
 }
 
 impl Ctl {
-    fn new(sh: &Arc<Shared>, lport: u16, lport2: Option<u16>) -> Self {
-        Self { sh: sh.clone(), lport, locals: Vec::new(), listener_seen: Arc::new(AtomicBool::new(false)), lport2: lport2.map(|p| (p, Arc::new(AtomicBool::new(false)))) }
+    fn new(sh: &Arc<Shared>, lport: u16, lport2: Option<u16>, socks: bool) -> Self {
+        Self { sh: sh.clone(), lport, locals: Vec::new(), listener_seen: Arc::new(AtomicBool::new(false)), lport2: lport2.map(|p| (p, Arc::new(AtomicBool::new(false)))), socks }
     }
     fn open(&mut self, origin: &'static str) -> f64 {
         self.open_on(0, origin)
@@ -955,11 +1041,11 @@ impl Ctl {
     /// a local connection to the first (0) or the second (1) TCP remote
     fn open_on(&mut self, remote: usize, origin: &'static str) -> f64 {
         let idx = self.locals.len();
-        let (port, seen) = match (&self.lport2, remote) {
-            (Some((p, seen)), 1) => (*p, seen.clone()),
-            _ => (self.lport, self.listener_seen.clone()),
+        let (port, seen, socks) = match (&self.lport2, remote) {
+            (Some((p, seen)), 1) => (*p, seen.clone(), false),
+            _ => (self.lport, self.listener_seen.clone(), self.socks),
         };
-        let mut lc = open_local(port, origin, idx, seen, &self.sh);
+        let mut lc = open_local(port, socks, origin, idx, seen, &self.sh);
         lc.remote = remote;
         let t = lc.open_before_ms;
         self.locals.push(lc);
@@ -1052,7 +1138,7 @@ async fn exec_script(sc: &Scenario, iso: bool) -> Exec {
         return ex;
     }
     let client = spawn_client(net::ClientCfg { lport2, ..sc.client_cfg(sport, lport, uport) }, sh.clone());
-    let mut ctl = Ctl::new(&sh, lport, lport2);
+    let mut ctl = Ctl::new(&sh, lport, lport2, sc.socks);
     let len = sc.script.len();
 
     for j in 0..len {
@@ -1151,6 +1237,24 @@ async fn exec_script(sc: &Scenario, iso: bool) -> Exec {
             // `stall`: the attempt is stuck in the handshake): k local connections at once, each with its own payload
             ctl.open_several(sc.several);
         }
+        if let (0, Some(how)) = (j, sc.goes_away) {
+            // family M: the tunnel is down (`reset`: the attempt has just failed, the client is in its back-off; `stall`:
+            // the attempt is stuck in the handshake): local client A comes, says everything at once, and goes away.
+            // It is waited for (it never waits for the tunnel itself; its own waits are bounded)
+            let mut h = tokio::spawn(run_goer(lport, sc.socks, how, ctl.listener_seen.clone(), sh.clone()));
+            match tokio::time::timeout(Duration::from_millis(3 * LONG_WAIT_MS), &mut h).await {
+                Ok(Ok(g)) => ex.goer = Some(g),
+                Ok(Err(e)) => {
+                    ex.machinery = Some(format!("the local client that goes away: harness task: {e}"));
+                    break;
+                }
+                Err(_) => {
+                    h.abort();
+                    ex.machinery = Some("the local client that goes away did not finish".into());
+                    break;
+                }
+            }
+        }
         if j == 0 {
             if let (Some(up), n @ 1..) = (uport, sc.udp_flood) {
                 // the tunnel is down (or this attempt will never get anywhere): local datagrams keep coming
@@ -1167,7 +1271,14 @@ async fn exec_script(sc: &Scenario, iso: bool) -> Exec {
         match b {
             Beh::Reset | Beh::Http404 | Beh::Close0 | Beh::Close300 | Beh::CloseHold | Beh::Drop | Beh::TlsCut | Beh::TlsReset => {}
             Beh::Mute => {
-                if ctl.locals.is_empty() {
+                if sc.goes_away.is_some() && ctl.locals.is_empty() {
+                    // family M: the request that is never acknowledged is the one the local client that went away left
+                    // behind.  Should it not show up on this connection (the client's handler had not got as far as
+                    // asking for a stream when its local client went away), a local connection is opened as elsewhere
+                    if sh.wait(5000, |l| l.attempts[j].first_bin_ms.or(l.attempts[j].peer_end_ms).or(l.client_end.as_ref().map(|c| c.t_ms))).await.is_none() {
+                        ctl.open("timeout");
+                    }
+                } else if ctl.locals.is_empty() {
                     ctl.open("timeout");
                 }
                 for l in &mut ctl.locals {
@@ -1175,7 +1286,8 @@ async fn exec_script(sc: &Scenario, iso: bool) -> Exec {
                 }
                 let first_open = ctl.locals.iter().map(|l| l.open_before_ms).fold(f64::INFINITY, f64::min);
                 let acc = sh.read(|l| l.attempts[j].accept_ms);
-                ex.mute_req_lo.insert(j, acc.max(first_open));
+                // (no local connection of the controller: the request was waiting, it is issued once the connection is up)
+                ex.mute_req_lo.insert(j, if first_open.is_finite() { acc.max(first_open) } else { acc });
             }
             Beh::Garbage | Beh::GarbageReply => {
                 // `garbage-reply` answers a stream request: one must be pending on this connection
@@ -1227,7 +1339,16 @@ async fn exec_script(sc: &Scenario, iso: bool) -> Exec {
                     break;
                 }
             },
-            Beh::Healthy | Beh::TlsHealthy => ctl.verify_locals().await,
+            Beh::Healthy | Beh::TlsHealthy => {
+                ctl.verify_locals().await;
+                if sc.goes_away.is_some() {
+                    // family M: B has its answer.  The request the local client that went away left behind is served
+                    // by this connection too (its stream shows up at the server, usually before B's); what the client
+                    // makes of the dead local socket is seen a moment later: it must still be running then
+                    sh.wait(3000, |l| (l.client_end.is_some() || l.streams.iter().filter(|s| s.attempt == j).count() >= 2).then_some(())).await;
+                    sh.wait(OPEN_END_WATCH_MS, |l| l.client_end.is_some().then_some(())).await;
+                }
+            }
         }
         if sc.down_at == Some(j) && !b.terminal() && !(b == Beh::Mute) {
             ctl.open("down");
@@ -1497,6 +1618,11 @@ fn judge_script(ex: &mut Exec, steps: &[Step]) {
         // family L: the healthy connection was not reached with the client still running (it ended early, see above):
         // a local connection that the client accepted while the tunnel was down and then closed is lost all the same
         judge_several_lost(ex, &ctx);
+    } else if sc.goes_away.is_some() {
+        // family M: the client ended (see above); what became of the new local client B, if it was opened at all
+        for l in ex.locals.clone().iter().filter(|l| l.origin == "probe") {
+            lost_after_local_abort(ex, l, &ctx);
+        }
     }
 
     // ---- gaps between attempts
@@ -1613,11 +1739,50 @@ fn judge_several_lost(ex: &mut Exec, ctx: &str) {
     }
 }
 
+/// Family M: the new local client B (opened on the same local entry once the healthy connection was up) could not
+/// connect or was not served.  (A startup refusal and a wrong echo keep the general keys.)
+fn lost_after_local_abort(ex: &mut Exec, l: &LocalSummary, ctx: &str) -> bool {
+    let sc = ex.sc.clone();
+    let Some(how) = sc.goes_away else { return false };
+    let what = match &l.result {
+        Some(LocalRes::Echo { .. } | LocalRes::Corrupt { .. }) | Some(LocalRes::Refused { startup: true, .. }) => return false,
+        Some(LocalRes::Refused { t_ms, err, .. }) => format!("was refused by the local listener at {t_ms:.0} ms ({err})"),
+        Some(LocalRes::Closed { connected_ms, closed_ms, got, err }) => format!("connected at {connected_ms:.0} ms and was closed by the client at {closed_ms:.0} ms ({err}) after {got} echoed bytes"),
+        None => format!("(opened at {:.0} ms) was neither served nor closed within {LONG_WAIT_MS} ms", l.open_before_ms),
+    };
+    let a = ex.goer.as_ref().map_or("?".to_string(), |g| {
+        format!(
+            "connected at {} ms, sent {} at once{}, and went away ({}) at {} ms",
+            g.connected_ms.map_or("?".into(), |t| format!("{t:.0}")),
+            if sc.socks { "its SOCKS5 greeting and CONNECT request" } else { "a few octets" },
+            g.method_reply.as_ref().map_or(String::new(), |m| format!(", got the method reply {m}")),
+            how.name(),
+            g.gone_ms.map_or("?".into(), |t| format!("{t:.0}"))
+        )
+    });
+    let up = ex.attempts.iter().rev().find(|a| a.beh.is_some_and(Beh::healthy)).and_then(|a| a.hs_done_ms);
+    ex.find(
+        format!("listener.lost-after-local-abort.{}.{}", sc.entry(), how.name()),
+        format!(
+            "while the tunnel was down a local client of the {} entry {a}, its stream request still waiting in the client; after the healthy connection was up{} a NEW local client on the same entry {what} instead of being served; one local client that has gone away must not cost the listener; client: {}; {ctx}",
+            sc.entry(),
+            up.map_or(String::new(), |t| format!(" (handshake completed at {t:.0} ms)")),
+            ex.client_end_at_finish.as_ref().map_or("still running".to_string(), |c| format!("ended with {} [{}] at {:.0} ms", c.class, c.text, c.t_ms)),
+        ),
+        l.result.is_none(),
+    );
+    true
+}
+
 fn judge_locals(ex: &mut Exec, ctx: &str) {
     let locals = ex.locals.clone();
     let mut echoed = 0usize;
     for (k, l) in locals.iter().enumerate() {
         let mode = format!("opened-{}{}", l.origin, if l.through_mute { ".request-timed-out" } else { "" });
+        // family M: the new local client on the entry whose earlier local client went away has its own key
+        if l.origin == "probe" && lost_after_local_abort(ex, l, ctx) {
+            continue;
+        }
         // family L: the k connections that were pending at once have their own keys
         if ex.sc.several > 0 && l.origin == "several" {
             match &l.result {
@@ -1720,7 +1885,7 @@ async fn exec_outage(sc: &Scenario, iso: bool) -> Exec {
     };
     let sh = Shared::new();
     let client = spawn_client(sc.client_cfg(sport, lport, None), sh.clone());
-    let mut ctl = Ctl::new(&sh, lport, None);
+    let mut ctl = Ctl::new(&sh, lport, None, sc.socks);
     tokio::time::sleep(Duration::from_millis(sc.outage_ms / 2)).await;
     if sc.down_at.is_some() {
         ctl.open("down");
@@ -1866,7 +2031,7 @@ fn replay(args: &Args, v: &Value, mut rep: Report) -> Report {
 #[allow(clippy::too_many_lines)]
 pub fn run(args: &Args) -> Report {
     let mut rep = Report::new("C19", &args.tier, "e2e", "exploration");
-    rep.rule = "one execution of the real client_main_inner per point of the scenario matrix (server-behaviour script x max_retry_count x max_retry_interval x local-connection placement; for the silent-server scripts x keepalive interval/timeout or keepalive off; for the stalled-TLS-handshake scripts wss:// x handshake timeout; for the cut-TLS-handshake scripts wss:// x cut by FIN or by TCP reset x ending by give-up, open-ended or at a healthy wss:// server; for the invalid-frame scripts the bad message unprompted or in answer to a pending stream request; for the several-pending scripts two TCP remotes x 2 or 3 local connections at once during the first outage), every point executed; a point is non-trivial/distinct when its scenario record is distinct; a finding counts only when a scenario that showed it in the parallel pass shows it again when run alone on the machine (one scenario per key is re-run, smallest first)".into();
+    rep.rule = "one execution of the real client_main_inner per point of the scenario matrix (server-behaviour script x max_retry_count x max_retry_interval x local-connection placement; for the silent-server scripts x keepalive interval/timeout or keepalive off; for the stalled-TLS-handshake scripts wss:// x handshake timeout; for the cut-TLS-handshake scripts wss:// x cut by FIN or by TCP reset x ending by give-up, open-ended or at a healthy wss:// server; for the invalid-frame scripts the bad message unprompted or in answer to a pending stream request; for the several-pending scripts two TCP remotes x 2 or 3 local connections at once during the first outage; for the local-client-goes-away scripts kind of the local entry (TCP remote, SOCKS listener) x first attempt (reset, stall) x way the local client goes away while its request waits (fin, rst-linger0, SOCKS also rst-unread-data) x failing connection before the healthy one (none, mute, close0)), every point executed; a point is non-trivial/distinct when its scenario record is distinct; a finding counts only when a scenario that showed it in the parallel pass shows it again when run alone on the machine (one scenario per key is re-run, smallest first)".into();
     std::panic::set_hook(Box::new(|_| {}));
     // families F and K make the client build a TLS configuration (only `tls-healthy` completes a TLS handshake)
     rusty_penguin_lib::tls::init_crypto_provider();
@@ -1972,7 +2137,7 @@ pub fn run(args: &Args) -> Report {
     rep.bounds.insert("scenarios".into(), json!(matrix.len()));
     rep.bounds.insert("scenarios_per_family".into(), json!(fam));
     rep.bounds.insert("script_len_max".into(), json!({"families_A_B": bounds.len, "give_up_by_preconnect_failures_only": bounds.len + 1, "family_C": if thorough { 5 } else { 4 }}));
-    rep.bounds.insert("behaviours".into(), json!(["reset", "stall", "http404", "close0", "close300", "drop", "mute", "healthy", "silent (family E)", "tls-stall (family F)", "close-hold (family G)", "garbage, garbage-reply (family H)", "tls-cut, tls-reset, tls-healthy (family K)", "(really refusing port: family D)", "(family L: reset | stall, then mute | close0 | close300 | drop once or twice, then healthy -- with two TCP remotes and 2 or 3 local connections pending at once)"]));
+    rep.bounds.insert("behaviours".into(), json!(["reset", "stall", "http404", "close0", "close300", "drop", "mute", "healthy", "silent (family E)", "tls-stall (family F)", "close-hold (family G)", "garbage, garbage-reply (family H)", "tls-cut, tls-reset, tls-healthy (family K)", "(really refusing port: family D)", "(family L: reset | stall, then mute | close0 | close300 | drop once or twice, then healthy -- with two TCP remotes and 2 or 3 local connections pending at once)", "(family M: reset | stall, then nothing | mute | close0, then healthy -- with one local entry (TCP remote or SOCKS listener) and a local client that leaves its request behind during the first outage and goes away: fin | rst-linger0 | rst-unread-data)"]));
     rep.bounds.insert("max_retry_count".into(), json!(bounds.counts));
     rep.bounds.insert("max_retry_interval_ms".into(), json!(bounds.caps));
     rep.bounds.insert("handshake_timeout_ms".into(), json!(matrix.iter().map(|s| s.hs_ms).collect::<std::collections::BTreeSet<_>>()));
@@ -2002,6 +2167,20 @@ pub fn run(args: &Args) -> Report {
             "failing_connections_in_a_row_max": matrix.iter().filter(in_l).map(|s| s.script.len().saturating_sub(2)).max(),
             "scripts_left_out_because_lossy_by_design": 0,
             "each_local_connection_waited_for_ms": LONG_WAIT_MS,
+        }),
+    );
+    let in_m = |s: &&Scenario| s.goes_away.is_some();
+    rep.bounds.insert(
+        "family_M_local_client_goes_away_while_parked".into(),
+        json!({
+            "client": "one local entry on 127.0.0.1: a TCP remote to the target, or a SOCKS listener (remote specification 127.0.0.1:PORT:socks); max_retry_count 0, max_retry_interval 300 ms",
+            "local_entries": matrix.iter().filter(in_m).map(|s| s.entry()).collect::<std::collections::BTreeSet<_>>(),
+            "local_client_A": "connects while the first attempt is failing (stall) / has just failed (reset); SOCKS: greeting 05 01 00 and request 05 01 00 01 <target ip> <target port> in ONE write without waiting for the method reply, then waits for the method reply; TCP remote: a few octets; goes away 40 ms later; it is gone before the script goes on",
+            "ways_to_go_away": matrix.iter().filter(in_m).filter_map(|s| s.goes_away.map(|g| format!("{}: {}", s.entry(), g.name()))).collect::<std::collections::BTreeSet<_>>(),
+            "ways_left_out_because_not_reachable": ["tcp-remote: rst-unread-data (a TCP remote sends nothing to a local client while the tunnel is down, so nothing can be left unread)"],
+            "scripts": if thorough { "complete: entry x [reset | stall] x way x [nothing | mute | close0] ++ [healthy]" } else { "a selection of entry x [reset | stall] x way x [nothing | mute | close0] ++ [healthy] with every (entry, way) at least once (the thorough tier runs the complete product)" },
+            "scripts_left_out_because_lossy_by_design": 0,
+            "new_local_client_B": format!("opened on the same entry once the handshake of the healthy connection is complete; SOCKS: lock-step CONNECT to the target, a well-formed success reply (RFC 1928 section 6) is required before its payload travels; waited for {LONG_WAIT_MS} ms; then the client is watched until the healthy server has seen the stream of A's request too (3 s at most) and {OPEN_END_WATCH_MS} ms more"),
         }),
     );
     rep.bounds.insert("channel_timeout_ms".into(), json!(CH_TIMEOUT_MS));
@@ -2078,6 +2257,35 @@ pub fn run(args: &Args) -> Report {
         "several_pending_local_connections".into(),
         json!({"scenarios": execs.iter().filter(in_l).count(), "scenarios_with_every_pending_connection_echoed_and_the_client_still_running": l_all_echoed, "pending_connections_echoed": l_echoes, "scenarios_with_every_connection_made_before_the_failing_connection_came_up": l_all_before_up, "scenarios_with_an_echo_on_both_remotes": l_both_remotes}),
     );
+    // family M
+    let in_m = |e: &&Exec| e.sc.goes_away.is_some();
+    let m_b_echo = |e: &Exec| e.locals.iter().any(|l| l.origin == "probe" && matches!(l.result, Some(LocalRes::Echo { .. })));
+    let m_served = |e: &&Exec| e.completed && e.client_end_at_finish.is_none() && m_b_echo(e);
+    // A had gone away (close() returned) before the handshake of the next connection completed: its request waited
+    // while the tunnel was down and was served -- or timed out, was parked and served -- with nobody there any more
+    let m_gone_down = |e: &&Exec| matches!((e.goer.as_ref().and_then(|g| g.gone_ms), e.attempts.get(1).and_then(|a| a.hs_done_ms)), (Some(gone), Some(up)) if gone < up);
+    // ... and the healthy server saw a stream for it besides the one of B (nothing else asks for streams here)
+    let m_a_stream = |e: &&Exec| e.attempts.len() == e.sc.script.len() && e.streams.iter().filter(|s| s.attempt + 1 == e.sc.script.len()).count() >= 2 && e.locals.iter().filter(|l| matches!(l.result, Some(LocalRes::Echo { .. }))).count() == 1;
+    let m_socks_rst = |e: &&Exec| e.sc.socks && matches!(e.sc.goes_away, Some(GoAway::RstLinger | GoAway::RstUnread)) && e.goer.as_ref().is_some_and(|g| g.method_reply.as_deref() == Some("0500") && g.err.is_none());
+    let m_all = execs.iter().filter(in_m).count();
+    let m_b_served = execs.iter().filter(in_m).filter(m_served).count();
+    let m_gone_while_down = execs.iter().filter(in_m).filter(m_served).filter(m_gone_down).count();
+    let m_request_served_after = execs.iter().filter(in_m).filter(m_served).filter(m_gone_down).filter(m_a_stream).count();
+    let m_socks_reply_to_reset_socket = execs.iter().filter(in_m).filter(m_served).filter(m_gone_down).filter(m_a_stream).filter(m_socks_rst).count();
+    // (a scenario that was run again alone counts with that run too)
+    let m_entry_way_served: std::collections::BTreeSet<String> = execs.iter().chain(iso_runs.values().flatten()).filter(in_m).filter(m_served).filter_map(|e| e.sc.goes_away.map(|g| format!("{}: {}", e.sc.entry(), g.name()))).collect();
+    let m_entry_way_all: std::collections::BTreeSet<String> = matrix.iter().filter_map(|s| s.goes_away.map(|g| format!("{}: {}", s.entry(), g.name()))).collect();
+    rep.extra.insert(
+        "local_client_gone_away_while_parked".into(),
+        json!({
+            "scenarios": m_all,
+            "scenarios_with_the_new_local_client_served_and_the_client_still_running": m_b_served,
+            "of_these_with_the_first_local_client_gone_before_the_next_connection_was_up": m_gone_while_down,
+            "of_these_with_its_request_served_by_the_healthy_connection_all_the_same": m_request_served_after,
+            "of_these_socks_with_the_method_reply_seen_and_the_socket_reset": m_socks_reply_to_reset_socket,
+            "entry_and_way_with_the_new_local_client_served": m_entry_way_served,
+        }),
+    );
     rep.extra.insert("suspicions".into(), json!(suspects.iter().map(|(k, v)| (k.clone(), v.len())).collect::<BTreeMap<_, _>>()));
     rep.extra.insert("suspicions_confirmed_alone".into(), json!(confirmed.keys().collect::<Vec<_>>()));
     rep.extra.insert("suspicions_not_reproduced_alone".into(), json!(refuted.len()));
@@ -2087,7 +2295,7 @@ pub fn run(args: &Args) -> Report {
     for (_, (_, iso)) in confirmed.iter().take(2) {
         rep.sample(iso.observation());
     }
-    for want in ["L-several-pending-local", "K-tls-handshake-cut", "H-invalid-frame", "G-close-hold", "E-keepalive", "F-tls-handshake", "C-reset-after-success", "B-pending-local", "A-counts-delays", "D-refused"] {
+    for want in ["M-local-client-goes-away-while-parked", "L-several-pending-local", "K-tls-handshake-cut", "H-invalid-frame", "G-close-hold", "E-keepalive", "F-tls-handshake", "C-reset-after-success", "B-pending-local", "A-counts-delays", "D-refused"] {
         if let Some(e) = execs.iter().find(|e| e.sc.family == want && e.findings.is_empty() && e.machinery.is_none()) {
             rep.sample(e.observation());
         }
@@ -2095,11 +2303,12 @@ pub fn run(args: &Args) -> Report {
     rep.assumptions.push("interleavings are whatever the tokio multi-thread runtime and the loopback stack produce; one execution per scenario (re-run once alone for suspicions)".into());
     rep.assumptions.push("the refusal inside scripts is 'accept, then drop before any HTTP' so that attempts can be counted; a port that really refuses (family D) hides the attempts, there only the result and the total time are checked".into());
     rep.assumptions.push("lower bounds on gaps are anchored at server-side timestamps taken before the failure was caused (tolerance 2 ms); upper bounds are 3x the due delay + 1 s".into());
-    rep.assumptions.push("handshake_timeout = channel_timeout = 1 s, keepalive off, ws:// (families A-D), one TCP remote on 127.0.0.1 (two in family L); the back-off generator itself is checked exhaustively by the vmux half of C19".into());
+    rep.assumptions.push("handshake_timeout = channel_timeout = 1 s, keepalive off, ws:// (families A-D), one TCP remote on 127.0.0.1 (two in family L; a SOCKS listener instead in half of family M); the back-off generator itself is checked exhaustively by the vmux half of C19".into());
     rep.assumptions.push(format!("families E (silent server; keepalive on/off) and F (wss:// with --tls-skip-verify, the server never speaks TLS; handshake timeout {TLS_HS_TIMEOUT_MS} ms in the quick tier) run in real time: an attempt counts as too early only {WIDE_TOL_LO_MS} ms before its earliest due time (last Pong + T + delay / earliest start + handshake timeout + delay), as too late only {WIDE_TOL_UP_MS} ms after its latest due time (last Pong + T + I + delay / accept + handshake timeout + delay), as never coming {HANG_EXTRA_MS} ms after the latter"));
 
     rep.assumptions.push(format!("family K (wss:// with --tls-skip-verify): the cut comes after the server has read the whole ClientHello record and before it has written anything; the lower bound of the gap after a cut is anchored at a timestamp the server took between the two (tolerance {TOL_MS} ms), the upper bound and everything else are those of `reset`; the handshake timeout is {TLS_CUT_HS_TIMEOUT_MS} ms so that it does not fire first; the healthy wss:// server presents a self-signed certificate for 127.0.0.1"));
     rep.assumptions.push(format!("family L (two TCP remotes, 2 or 3 local connections at once while the tunnel is down): a listener of the client has one stream request outstanding at a time, so with two remotes two requests wait in the client's queue when the next connection comes up (a third connection waits in the first listener's backlog); whether they are in the queue at the very moment the main loop looks is up to the scheduler (the connections are made {BASE_MS} ms or more before that connection is attempted); nothing is asserted about time except that each connection has its echo within {LONG_WAIT_MS} ms of the healthy connection"));
+    rep.assumptions.push(format!("family M (a local client leaves its request behind and goes away while the tunnel is down): rst-linger0 is SO_LINGER 0 before close(), rst-unread-data is close() with the two octets of the SOCKS method reply unread (Linux answers both with a RST instead of a FIN), fin is close() after everything that had arrived was read; the SOCKS greeting and the CONNECT request travel in one write of 13 octets, so the client's handler has the request in its buffer when it answers the greeting, and the local client goes away 40 ms after that answer has arrived (TCP remote: 40 ms after its octets were written); whether the client's handler had asked for its stream by then is not observable from outside and is not asserted (the evidence counts the scenarios in which the healthy server then saw the stream); nothing is owed to that local client; the new local client is owed service within {LONG_WAIT_MS} ms and the client must be running {OPEN_END_WATCH_MS} ms after that"));
     rep.assumptions.push(format!("family H: the non-retryable error after the handshake is penguin_mux::Error::InvalidFrame, caused by one binary message of {} octets 0xff; the server keeps the TCP connection open and plays the same on every further connection; 'at once' is judged as for http404 (the client ends within 1 s of the bad message, and no further connection attempt is made)", net::GARBAGE.len()));
 
     // ---- vacuity guard
@@ -2118,6 +2327,8 @@ pub fn run(args: &Args) -> Report {
         rep.machinery_error = Some(format!("degenerate run: clients ended by the invalid frame {n_inv}, of these with a stream request pending {inv_pending} -- each must be > 0 when nothing was found"));
     } else if confirmed.is_empty() && (l_all_echoed == 0 || l_both_remotes == 0 || l_all_before_up == 0) {
         rep.machinery_error = Some(format!("degenerate run: family L scenarios with every pending connection echoed {l_all_echoed}, with an echo on both remotes {l_both_remotes}, with every connection made while the tunnel was down {l_all_before_up} -- each must be > 0 when nothing was found"));
+    } else if confirmed.is_empty() && (m_b_served == 0 || m_gone_while_down == 0 || m_request_served_after == 0 || m_socks_reply_to_reset_socket == 0 || m_entry_way_served != m_entry_way_all) {
+        rep.machinery_error = Some(format!("degenerate run: family M scenarios with the new local client served and the client still running {m_b_served}, of these with the first local client gone before the next connection was up {m_gone_while_down}, of these with its request served by the healthy connection {m_request_served_after}, of these SOCKS with the socket reset after the method reply {m_socks_reply_to_reset_socket} -- each must be > 0 when nothing was found -- and every (entry, way) must have been served once: {m_entry_way_served:?} of {m_entry_way_all:?}"));
     } else if hellos_fin == 0 || hellos_rst == 0 {
         rep.machinery_error = Some(format!("degenerate run: TLS ClientHellos (first octet 0x16) read before a cut by FIN {hellos_fin}, before a cut by reset {hellos_rst} -- each must be > 0"));
     } else if confirmed.is_empty() && (k_retries == 0 || k_giveups == 0 || k_open == 0 || k_served == 0) {
